@@ -23,6 +23,9 @@ def jobs(tier):
         J('h_resp_cmdt', L=260, windows=255, limit=7, gap='1/100')
         J('h_orig_bam', L=260, eps_sym=False)
         J('h_resp_bam', L=300, gap='1/20')
+    # a responder may hold the connection open for longer than T3 in total (every hold CTS restarts the wait)
+    J('h_orig_cmdt', L=15, holds=[3])
+    J('h_orig_cmdt', L=15, holds=[0, 3])
     for L in ([15, 22] if q else [15, 22, 29, 36]):
         J('h_orig_cmdt', L=L, holds=[1])
         J('h_orig_cmdt', L=L, holds=[0, 1])
